@@ -36,9 +36,12 @@ var Keys = []Key{
 	// capacity and re-sorting on insertion
 	{"GET", "/ac", "", "/ac"},
 	{"GET", "/ad", "", "/ad"},
+	// a static and a parameter sibling: the probing request of key 8 needs a backtrack (static "c", then {x})
+	{"GET", "/a/{x}/b", "", "/a/c/b"},
+	{"GET", "/a/c/d", "", "/a/c/d"},
 }
 
-const NK = 8
+const NK = 10
 
 // Op kinds.
 const (
@@ -54,6 +57,12 @@ const (
 	View    = "View" // read-only managed txn: Sub are reads
 	Txn     = "Txn"  // write txn: Sub are writes/reads; Commit says how it ends
 	Len     = "Len"
+	// Allow serves a request with a method no route uses (DELETE) on the key's host and path: the answer
+	// (404, or 405 with the Allow set) must correspond to ONE committed state. Needs WithNoMethod(true).
+	Allow = "Allow"
+	// AllowOptions serves an OPTIONS request on the key's host and path (needs WithAutoOptions(true)):
+	// 200 with the Allow set of one committed state plus OPTIONS, or 404.
+	AllowOptions = "AllowOptions"
 )
 
 // Op is one operation of a thread script.
@@ -111,6 +120,10 @@ func (o Op) String() string {
 		return fmt.Sprintf("%s{%s}%s", o.Kind, strings.Join(parts, ";"), end)
 	case IterAll, Len:
 		return o.Kind
+	case Allow:
+		return fmt.Sprintf("Allow(DELETE %s%s)", Keys[o.Key].Host, Keys[o.Key].Path)
+	case AllowOptions:
+		return fmt.Sprintf("Allow(OPTIONS %s%s)", Keys[o.Key].Host, Keys[o.Key].Path)
 	}
 	return fmt.Sprintf("%s(%s %s)", o.Kind, Keys[o.Key].Method, Keys[o.Key].Pattern)
 }
@@ -258,8 +271,8 @@ func ServeKey(f *fox.Router, ki int) Out {
 		v, _ := strconv.Atoi(w.H.Get("V"))
 		return Out{Ver: v}
 	}
-	if w.Code == 404 {
-		return Out{}
+	if w.Code == 404 || w.Code == 405 {
+		return Out{} // not served (405 when the program enables method-not-allowed)
 	}
 	return Out{Err: "status" + strconv.Itoa(w.Code)}
 }
@@ -271,6 +284,25 @@ func Do(f *fox.Router, o Op) Out {
 		return doWrite(f, o)
 	case Serve:
 		return ServeKey(f, o.Key)
+	case Allow:
+		k := Keys[o.Key]
+		w := fx.NewRW()
+		f.ServeHTTP(w, fx.Req("DELETE", k.Host, k.Path))
+		var al []string
+		for _, m := range strings.Split(w.H.Get("Allow"), ", ") {
+			if m != "OPTIONS" { // whether OPTIONS is listed in a 405 Allow header is not decided by the statements
+				al = append(al, m)
+			}
+		}
+		sort.Strings(al)
+		return Out{Err: fmt.Sprintf("%d:%s", w.Code, strings.Join(al, "+"))}
+	case AllowOptions:
+		k := Keys[o.Key]
+		w := fx.NewRW()
+		f.ServeHTTP(w, fx.Req("OPTIONS", k.Host, k.Path))
+		al := strings.Split(w.H.Get("Allow"), ", ")
+		sort.Strings(al)
+		return Out{Err: fmt.Sprintf("%d:%s", w.Code, strings.Join(al, "+"))}
 	case Has, Route, Reverse, Lookup, IterAll, Len:
 		return doRead(f, f, o)
 	case View:
@@ -388,6 +420,23 @@ func Apply(s State, o Op) (Out, State) {
 		return Out{}, s
 	case Route, Reverse, Lookup, Serve:
 		return Out{Ver: s[o.Key]}, s
+	case Allow, AllowOptions:
+		var ms []string
+		for i, k := range Keys {
+			if s[i] != 0 && k.Host == Keys[o.Key].Host && k.Path == Keys[o.Key].Path && !strings.ContainsAny(k.Pattern, "{*") {
+				ms = append(ms, k.Method)
+			}
+		}
+		if len(ms) == 0 {
+			return Out{Err: "404:"}, s
+		}
+		if o.Kind == AllowOptions {
+			ms = append(ms, "OPTIONS")
+			sort.Strings(ms)
+			return Out{Err: "200:" + strings.Join(ms, "+")}, s
+		}
+		sort.Strings(ms)
+		return Out{Err: "405:" + strings.Join(ms, "+")}, s
 	case IterAll:
 		return Out{Snap: s, N: count(s)}, s
 	case Len:
@@ -477,4 +526,26 @@ func Populate(f *fox.Router, init State) {
 			}
 		}
 	}
+}
+
+// AllowPrograms: requests whose answer is assembled from several lookups (405 / OPTIONS Allow list)
+// against a transaction that moves a route from one method to another. The answer must come from
+// ONE committed state.
+func AllowPrograms() []*Program {
+	h := func(k, v int) Op { return Op{Kind: Handle, Key: k, Ver: v} }
+	d := func(k int) Op { return Op{Kind: Delete, Key: k} }
+	opts := func() []fox.GlobalOption {
+		return []fox.GlobalOption{fox.WithNoMethod(true), fox.WithAutoOptions(true)}
+	}
+	var out []*Program
+	for wi, w := range []Op{
+		{Kind: Txn, End: EndCommit, StepIn: true, Sub: []Op{d(0), h(4, 7)}},
+		{Kind: Txn, End: EndUpdatesNil, StepIn: true, Sub: []Op{h(5, 7), d(0)}},
+		{Kind: Txn, End: EndAbort, StepIn: true, Sub: []Op{d(0), h(4, 7)}},
+		{Kind: Txn, End: EndUpdatesErr, StepIn: true, Sub: []Op{d(0), h(4, 7)}},
+	} {
+		out = append(out, &Program{Name: fmt.Sprintf("allow-%d", wi), Init: State{1, 0, 0, 0, 0, 0}, Opts: opts,
+			Threads: [][]Op{{w}, {{Kind: Allow, Key: 0}, {Kind: AllowOptions, Key: 0}}, {{Kind: AllowOptions, Key: 0}, {Kind: Allow, Key: 0}}}})
+	}
+	return out
 }
